@@ -1702,6 +1702,25 @@ pub fn configs(prop: SProp, tier: Tier) -> Vec<SCfg> {
             // after the other (every handler dropped after its first poll): each of them wakes the
             // channel, and when the last one has gone the channel ends (seeded change C10i stopped
             // listening for the guards' notices after the first one)
+            // a request has been in flight for 25 h on a connection as old, then a request whose
+            // deadline is 800 days / 300 days / 10 s away arrives, the peer ends its side, the
+            // handlers finish: both are answered, the channel ends, nothing panics (seeded change
+            // C10o renewed the aged timer queue while it still held the first request's timer).
+            // The clock is NOT stepped in these configurations (no S_ADVANCE): see DESIGN 12.3 on
+            // what stepping it by years does to tokio's timer wheel.
+            for far in [800i64 * 86_400_000, 300 * 86_400_000, 10_000] {
+                for route in [Route::Requests, Route::Execute] {
+                    for limit in [None, Some(2)] {
+                        let age = 25 * 3_600_000i64;
+                        let r0 = ReqCfg { deadline_ms: 3 * 86_400_000, ..ReqCfg::simple(0, true) };
+                        let r1 = ReqCfg { deadline_ms: age + far, ..ReqCfg::simple(1, true) };
+                        let mut c = base(vec![r0, r1], limit, 1, Flavour::Always, 1, S_EOF | S_DRAIN | S_FINISH);
+                        c.route = route;
+                        c.start_age_ms = -age;
+                        out.push(c);
+                    }
+                }
+            }
             for n in 2..=3usize {
                 for route in [Route::Requests, Route::Execute] {
                     let rs: Vec<ReqCfg> = (0..n as u64).map(|i| ReqCfg { hk: HKind::DropAfter(1), ..ReqCfg::simple(i, false) }).collect();
